@@ -42,7 +42,8 @@ class C13Death(Prop):
     model_targets = ['PilotDeath/Oracle.vo', 'States/DeathRace.vo']
     translators = ['states']
     header = 'From RP Require Import Gen.StatesTables PilotDeath.Model PilotDeath.Oracle.'
-    clauses = ['own_failed', 'others_untouched', 'reported', 'one_final_state_under_concurrent_update']
+    clauses = ['own_failed', 'others_untouched', 'reported', 'one_final_state_under_concurrent_update',
+               'callbacks_linear_under_concurrent_update']
     race_header = 'From RP Require Import Gen.StatesTables States.Model States.Inst States.DeathRace.'
 
     def header_for(self, case):
@@ -193,10 +194,14 @@ class C13Death(Prop):
             from . import interleave as IL
             import radical.pilot.states as rps
             rc = case['race']
-            ann = []
+            ann, cbs = [], []
             tm._tcb_lock, tm._task_info = threading.RLock(), {t: {} for t in tm._tasks}
-            tm._callbacks = {rpc.TASK_STATE: {'*': {'rec': {
-                'cb': lambda t, s: ann.append(s) if s in FINAL else None, 'cb_data': None}}}}
+
+            def tcb(t, s):
+                cbs.append(s)
+                if s in FINAL:
+                    ann.append(s)
+            tm._callbacks = {rpc.TASK_STATE: {'*': {'rec': {'cb': tcb, 'cb_data': None}}}}
             real_adv = tm.advance
 
             def adv2(things, state=None, publish=True, push=False, **kw):
@@ -211,7 +216,7 @@ class C13Death(Prop):
                                TaskManager._task_cb, TaskManager._pilot_state_cb)
             fa, fb = (upd, die) if rc['first'] == 'update' else (die, upd)
             r = IL.run_pair(fa, fb, codes, rc['k'], block_s=0.05)
-            return {'held': r['held'], 'a_exc': r['a_exc'], 'b_exc': r['b_exc'], 'ann': ann,
+            return {'held': r['held'], 'a_exc': r['a_exc'], 'b_exc': r['b_exc'], 'ann': ann, 'cbs': cbs,
                     'fin': tm._tasks[tuid(1)].state}
         obs = []
         for o in case['ops']:
@@ -273,13 +278,14 @@ class C13Death(Prop):
     def coq_row(self, case, obs):
         if 'race' in case:
             if not obs['held']:
-                return '[true; true; true; true; true]'
-            row = '(c13_race_row T_%s T_%s %s T_%s)' % (case['tasks'][0][1], case['race']['tgt'],
-                                                      L.lst(['T_' + s for s in obs['ann']]), obs['fin'])
+                return '[true; true; true; true; true; true]'
+            row = '(c13_race_row T_%s T_%s %s T_%s %s)' % (case['tasks'][0][1], case['race']['tgt'],
+                                                         L.lst(['T_' + s for s in obs['ann']]), obs['fin'],
+                                                         L.lst(['T_' + s for s in obs['cbs']]))
             if obs['a_exc'] or obs['b_exc']:
                 row = '(false :: tl %s)' % row
             return row
-        return '(%s ++ [true])' % self._coq_row_cb(case, obs)
+        return '(%s ++ [true; true])' % self._coq_row_cb(case, obs)
 
     def _coq_row_cb(self, case, obs):
         items = []
